@@ -251,7 +251,10 @@ func (m *Module) Field(pkg, typ, field string) *types.Var {
 			return st.Field(i)
 		}
 	}
-	return m.fieldByFingerprint(pkg, typ, st, field)
+	if f := m.fieldByFingerprint(pkg, typ, st, field); f != nil {
+		return f
+	}
+	return m.fieldInNestedStruct(pkg, typ, st, field)
 }
 
 // WithAnon returns fn and all function literals nested in it.
@@ -263,7 +266,15 @@ func WithAnon(fn *ssa.Function) []*ssa.Function {
 	for _, a := range fn.AnonFuncs {
 		out = append(out, WithAnon(a)...)
 	}
-	return out
+	// method values standing for literals written in fn (inline.go)
+	var ws []*ssa.Function
+	for w, mc := range methodLiteral {
+		if mc.Parent() == fn {
+			ws = append(ws, w)
+		}
+	}
+	sort.Slice(ws, func(i, j int) bool { return ws[i].String() < ws[j].String() })
+	return append(out, ws...)
 }
 
 // PkgFuncs returns every source function (incl. methods and literals) of an own package.
@@ -305,6 +316,19 @@ func (m *Module) PkgFuncs(pkg string) []*ssa.Function {
 					}
 				}
 			}
+		}
+	}
+	for _, w := range extraFuncs[pkg] {
+		if !seen[w] {
+			seen[w] = true
+			out = append(out, w)
+		}
+	}
+	// instantiations of the package's generic functions (built with ssa.InstantiateGenerics): each is a
+	// function with a body of its own that the package's code calls
+	for fn := range m.AllFunctions() {
+		if o := fn.Origin(); o != nil && o != fn && o.Pkg == sp && fn.Blocks != nil && fn.Parent() == nil {
+			add(fn)
 		}
 	}
 	sort.Slice(out, func(i, j int) bool { return out[i].String() < out[j].String() })
